@@ -196,3 +196,25 @@ def closure_annot(text, param, ptype, rtype):
         i = k
         n += 1
     return out, n
+
+
+@rule('R11')
+def r11_str_slice(text, *exprs):
+    """&S[a..b] on a `str` S  ->  vt_str_slice(S, a, b)   (vstd has no usable spec for Index<Range<usize>> for str)"""
+    n = 0
+    for e in exprs:
+        pat = re.compile(r'&' + re.escape(e) + r'\[([A-Za-z_][A-Za-z0-9_\.\(\)]*)\.\.([A-Za-z_][A-Za-z0-9_\.\(\)]*)\]')
+        text, k = pat.subn(lambda m: 'vt_str_slice(%s, %s, %s)' % (e, m.group(1), m.group(2)), text)
+        n += k
+    return text, n
+
+
+@rule('R6_count_until')
+def r6_count_until(text):
+    """the three call shapes of windows::count_until (a fold_while over a range / reversed range)"""
+    n = 0
+    text, k = re.subn(r'count_until\(\(([^\s.()]+)\.\.([^\s()]+)\)\.rev\(\), ', r'vt_count_bwd(\1, \2, ', text)
+    n += k
+    text, k = re.subn(r'count_until\(([^\s.()]+)\.\.([^\s,]+), ', r'vt_count_fwd(\1, \2, ', text)
+    n += k
+    return text, n
